@@ -63,8 +63,8 @@ structure FileSpecs (fuel : Nat) : Prop where
     FSafe AP EL S (parseFor pf ef fuel token) st (NPost EL S st)
   parseSwitch : ∀ token endT st, midT endT = true → (S token ∧ (EL.lex → valid token)) → Inv EL S st.p → mu st.p ≤ N → 8 * mu st.p + 19 ≤ fuel →
     FSafe AP EL S (parseSwitch pf ef fuel token endT) st (SwPost EL S st)
-  switchLoop : ∀ pos value endT cases st, midT endT = true → (casesOK cases ∧ NPL S cases ∧ PosOK S pos ∧ EP S value ∧ casesV EL S cases ∧ VPos EL S pos) → Inv EL S st.p → mu st.p ≤ N → 8 * mu st.p + 20 ≤ fuel →
-    FSafe AP EL S (switchLoop pf ef fuel pos value endT cases) st (SwPost EL S st)
+  switchLoop : ∀ pos value endT sd cases st, midT endT = true → (casesOK cases ∧ NPL S cases ∧ PosOK S pos ∧ EP S value ∧ casesV EL S cases ∧ VPos EL S pos) → Inv EL S st.p → mu st.p ≤ N → 8 * mu st.p + 20 ≤ fuel →
+    FSafe AP EL S (switchLoop pf ef fuel pos value endT sd cases) st (SwPost EL S st)
   caseLoop : ∀ token values st, (S token ∧ EPl S values ∧ (EL.lex → valid token)) → Inv EL S st.p → mu st.p ≤ N → 8 * mu st.p + 20 ≤ fuel →
     FSafe AP EL S (caseLoop pf ef fuel token values) st (CasePost EL S st)
   parseCall : ∀ token st, S token → Inv EL S st.p → mu st.p ≤ N → 8 * mu st.p + 20 ≤ fuel →
@@ -75,7 +75,7 @@ structure FileSpecs (fuel : Nat) : Prop where
     8 * (mu st.p + real initial) + 19 ≤ fuel →
     FSafe AP EL S (orphanLoop pf ef fuel initial) st (fun tok st' => S tok ∧ InvW EL S st'.p ∧ st'.p.peekCount ≤ 1 ∧
       top st'.p = tok ∧ mu st'.p + real tok ≤ mu st.p + real initial)
-  parseMsg : ∀ token st, S token → Inv EL S st.p → mu st.p ≤ N → 8 * mu st.p + 20 ≤ fuel →
+  parseMsg : ∀ token st, S token → (EL.lex → valid token) → Inv EL S st.p → mu st.p ≤ N → 8 * mu st.p + 20 ≤ fuel →
     FSafe AP EL S (parseMsg pf ef fuel token) st (NPost EL S st)
   parsePlural : ∀ tok st, S tok → (EL.lex → valid tok) → Inv EL S st.p → mu st.p ≤ N → 8 * mu st.p + 20 ≤ fuel →
     FSafe AP EL S (parsePlural pf ef fuel tok) st (NPost EL S st)
@@ -301,7 +301,7 @@ theorem beginTag_ok {fuel : Nat} (ih : FileSpecs AP EL S pf ef N fuel) (st : FSt
     apply FSafe.bind
     apply hnot
     apply FSafe.bind
-    apply (ih.parseMsg token st1 hs1 (upw% hi1) (by omega) (by omega)).mono
+    apply (ih.parseMsg token st1 hs1 (fun _ => real_valid hr) (upw% hi1) (by omega) (by omega)).mono
     intro n st2 ⟨hc2, hi2, hm2⟩
     exact FSafe.pure ⟨fun n' h => by cases h; first | exact hc2 | exact ⟨by obtain ⟨_, _, _, rfl, _⟩ := hc2.1; trivial, hc2.2⟩, hi2, by omega⟩
   · -- plural
@@ -538,13 +538,17 @@ theorem ifLoop_ok {fuel : Nat} (ih : FileSpecs AP EL S pf ef N fuel) (pos : Nat)
     have hconds' : NPL S (conds.append (.cons (.ifCond pos ce body) .nil)) :=
       NPL_append _ _ hconds (by simp only [NPL, NP]; exact ⟨⟨hpos, hce, hnp3⟩, trivial⟩)
     split
-    · apply (ih.ifLoop _ _ _ st5 ⟨hpos, hconds'⟩ (upw% hi5) (by omega) (by omega)).mono
-      intro r st6 ⟨c, a, b⟩
-      exact ⟨c, a, by omega⟩
+    · split
+      · exact funexpected_safe hi5 hs5
+      · apply (ih.ifLoop _ _ _ st5 ⟨hpos, hconds'⟩ (upw% hi5) (by omega) (by omega)).mono
+        intro r st6 ⟨c, a, b⟩
+        exact ⟨c, a, by omega⟩
     split
-    · apply (ih.ifLoop _ _ _ st5 ⟨hpos, hconds'⟩ (upw% hi5) (by omega) (by omega)).mono
-      intro r st6 ⟨c, a, b⟩
-      exact ⟨c, a, by omega⟩
+    · split
+      · exact funexpected_safe hi5 hs5
+      · apply (ih.ifLoop _ _ _ st5 ⟨hpos, hconds'⟩ (upw% hi5) (by omega) (by omega)).mono
+        intro r st6 ⟨c, a, b⟩
+        exact ⟨c, a, by omega⟩
     split
     · apply FSafe.bind
       apply fexpect_safe hz (upw% hi5) (by decide)
@@ -614,30 +618,30 @@ theorem parseSwitch_ok {fuel : Nat} (ih : FileSpecs AP EL S pf ef N fuel) (token
   apply FSafe.bind
   apply fexpect_safe hz hi1 (by decide)
   intro rd st2 hi2 _ _ _ hm2 _
-  apply (ih.switchLoop _ _ _ _ st2 hend ⟨casesOK_nil, NPL_nil, posOK_of hst.1, hm1.2, trivial, vpos_of hst.1 hst.2⟩ hi2 (by omega) (by omega)).mono
+  apply (ih.switchLoop _ _ _ _ _ st2 hend ⟨casesOK_nil, NPL_nil, posOK_of hst.1, hm1.2, trivial, vpos_of hst.1 hst.2⟩ hi2 (by omega) (by omega)).mono
   intro r st3 ⟨c, a, b⟩
   exact ⟨c, a, by omega⟩
 
 theorem switchLoop_ok {fuel : Nat} (ih : FileSpecs AP EL S pf ef N fuel) (pos : Nat) (value : Expr) (endT : ItemType)
-    (cases : NodeList) (st : FState) (hend : midT endT = true) (hcs : casesOK cases ∧ NPL S cases ∧ PosOK S pos ∧ EP S value ∧ casesV EL S cases ∧ VPos EL S pos)
+    (sd : Bool) (cases : NodeList) (st : FState) (hend : midT endT = true) (hcs : casesOK cases ∧ NPL S cases ∧ PosOK S pos ∧ EP S value ∧ casesV EL S cases ∧ VPos EL S pos)
     (hi : Inv EL S st.p) (hn : mu st.p ≤ N) (hf : 8 * mu st.p + 20 ≤ fuel + 1) :
-    FSafe AP EL S (switchLoop pf ef (fuel + 1) pos value endT cases) st (SwPost EL S st) := by
+    FSafe AP EL S (switchLoop pf ef (fuel + 1) pos value endT sd cases) st (SwPost EL S st) := by
   unfold FileParser.switchLoop
   apply FSafe.bind
   apply fnext_safe hz hi
   intro tok st1 hi1 hs1 _ ht1 hm1 _
   split
   · rename_i hc; have hr := real_of_beq hc (by decide)
-    apply (ih.switchLoop _ _ _ _ st1 hend hcs (upw% hi1) (by omega) (by omega)).mono
+    apply (ih.switchLoop _ _ _ _ _ st1 hend hcs (upw% hi1) (by omega) (by omega)).mono
     intro r st2 ⟨c, a, b⟩
     exact ⟨c, a, by omega⟩
   split
   · rename_i hc; have hr := real_of_beq hc (by decide)
     split
-    · apply (ih.switchLoop _ _ _ _ st1 hend hcs (upw% hi1) (by omega) (by omega)).mono
+    · apply (ih.switchLoop _ _ _ _ _ st1 hend hcs (upw% hi1) (by omega) (by omega)).mono
       intro r st2 ⟨c, a, b⟩
       exact ⟨c, a, by omega⟩
-    · exact funexpected_safe hi1 hs1
+    · exact funexpected_textStart_safe hs1 (fun hl => ht1 ▸ hi1.valid_top hl)
   split
   · rename_i hc
     have hr : real tok = 1 := by
@@ -645,11 +649,13 @@ theorem switchLoop_ok {fuel : Nat} (ih : FileSpecs AP EL S pf ef N fuel) (pos : 
       rcases hc with h | h
       · exact real_of_beq h (by decide)
       · exact real_of_beq h (by decide)
+    split
+    · exact funexpected_safe hi1 hs1
     apply FSafe.bind
     apply (ih.caseLoop tok [] st1 ⟨hs1, EPl_nil, fun _ => real_valid hr⟩ (upw% hi1) (by omega) (by omega)).mono
     intro c st2 ⟨⟨hc2, hnc2⟩, hi2, hm2⟩
     obtain ⟨cp, cvs, cb, rfl, hcb, hcv⟩ := hc2
-    apply (ih.switchLoop _ _ _ _ st2 hend
+    apply (ih.switchLoop _ _ _ _ _ st2 hend
       ⟨casesOK_append _ _ _ rfl hcs.1 (show casesOK (.cons (.switchCase cp cvs cb) .nil) from ⟨hcb, trivial⟩),
        NPL_append _ _ hcs.2.1 (by simp only [NPL]; exact ⟨hnc2, trivial⟩), hcs.2.2.1, hcs.2.2.2.1,
        casesV_append _ _ hcs.2.2.2.2.1 (by simp only [casesV]; exact ⟨hcv, trivial⟩), hcs.2.2.2.2.2⟩
@@ -664,7 +670,7 @@ theorem switchLoop_ok {fuel : Nat} (ih : FileSpecs AP EL S pf ef N fuel) (pos : 
     exact FSafe.pure ⟨⟨⟨_, _, _, rfl, hcs.1, hcs.2.2.2.2.1, hcs.2.2.2.2.2⟩, by simp only [NP]; exact ⟨hcs.2.2.1, hcs.2.2.2.1, hcs.2.1⟩⟩, hi2, by omega⟩
   split
   · rename_i hc; have hr := real_of_beq hc (by decide)
-    apply (ih.switchLoop _ _ _ _ st1 hend hcs (upw% hi1) (by omega) (by omega)).mono
+    apply (ih.switchLoop _ _ _ _ _ st1 hend hcs (upw% hi1) (by omega) (by omega)).mono
     intro r st2 ⟨c, a, b⟩
     exact ⟨c, a, by omega⟩
   · exact funexpected_safe hi1 hs1
@@ -745,7 +751,7 @@ theorem orphanLoop_ok {fuel : Nat} (ih : FileSpecs AP EL S pf ef N fuel) (initia
     apply rawtextP_safe
     intro text
     split
-    · exact funexpected_safe hi hs
+    · exact funexpected_textStart_safe hs (fun hl => htop ▸ hi.valid_top hl)
     · apply FSafe.bind
       apply nextNonComment_safe hz fuel st _ (upw% hi) (by omega)
       intro nxt st1 hs1 hi1 hpc1 ht1 hm1
@@ -865,8 +871,9 @@ theorem callParamsLoop_ok {fuel : Nat} (ih : FileSpecs AP EL S pf ef N fuel) (pa
               exact ⟨a, by omega, c⟩
 
 theorem parseMsg_ok {fuel : Nat} (ih : FileSpecs AP EL S pf ef N fuel) (token : Item) (st : FState)
-    (hst : S token) (hi : Inv EL S st.p) (hn : mu st.p ≤ N) (hf : 8 * mu st.p + 20 ≤ fuel + 1) :
+    (hst : S token) (hvt : EL.lex → valid token) (hi : Inv EL S st.p) (hn : mu st.p ≤ N) (hf : 8 * mu st.p + 20 ≤ fuel + 1) :
     FSafe AP EL S (parseMsg pf ef (fuel + 1) token) st (NPost EL S st) := by
+  have hstok : S token := hst
   unfold FileParser.parseMsg
   apply FSafe.bind
   apply parseAttrs_safe hz _ fuel [] st _ hi (by omega)
@@ -900,6 +907,7 @@ theorem parseMsg_ok {fuel : Nat} (ih : FileSpecs AP EL S pf ef N fuel) (token : 
       simp only
       repeat' split
       all_goals first
+        | exact ferrorfAt_safe (vpos_of hstok hvt)
         | exact ferrorf_safe hi3'
         | (apply FSafe.bind
            apply fexpect_safe hz hi3' (by decide)
@@ -948,12 +956,12 @@ theorem fileSpecs_all : ∀ fuel, FileSpecs AP EL S pf ef N fuel := by
       ifLoop := fun _ _ _ _ _ _ _ h => by omega
       parseFor := fun _ _ _ _ _ h => by omega
       parseSwitch := fun _ _ _ _ _ _ _ h => by omega
-      switchLoop := fun _ _ _ _ _ _ _ _ h => by omega
+      switchLoop := fun _ _ _ _ _ _ _ _ _ h => by omega
       caseLoop := fun _ _ _ _ _ _ h => by omega
       parseCall := fun _ _ _ _ _ h => by omega
       callParamsLoop := fun _ _ _ _ _ h => by omega
       orphanLoop := fun _ _ _ _ _ _ h => by omega
-      parseMsg := fun _ _ _ _ _ h => by omega
+      parseMsg := fun _ _ _ _ _ _ h => by omega
       parsePlural := fun _ _ _ _ _ _ h => by omega }
   | succ f ih =>
     exact {
